@@ -5,6 +5,7 @@
 use crate::core::*;
 use crate::sodium;
 use dryoc::types::*;
+use dryoc::types::ResizableBytes;
 use serde_json::json;
 use std::collections::BTreeMap;
 
@@ -133,9 +134,75 @@ pub fn generate(seed: u64, tier: Tier) -> Vec<Line> {
         dryoc::classic::crypto_pwhash::crypto_pwhash(&mut o, &pw, &salt, t, m * 1024, a).expect("pwhash");
         v.push(Line { id: format!("pwhash/{i}/alg{alg}/out{outlen}/m{m}/t{t}"), out: o, reference: sodium::argon2_raw(alg, t as u32, m as u32, &pw, &salt, outlen), nontrivial: true });
     }
+    containers_stable(seed, tier, &mut v);
     #[cfg(feature = "nightly")]
     containers(seed, tier, &mut v);
     v
+}
+
+/// container axis available in every build: stack array, plain array, Vec and `*_to_vec` wrappers
+fn containers_stable(seed: u64, tier: Tier, v: &mut Vec<Line>) {
+    use dryoc::generichash::GenericHash;
+    let n = tier.pick(300usize, 2000);
+    for i in 0..n {
+        let mut f = Fill::new(seed, &format!("C18:cs:{i}"));
+        let msg = f.bytes(i % 300);
+        let key: [u8; 32] = f.arr();
+        macro_rules! gh {
+            ($ol:expr) => {{
+                let a: StackByteArray<$ol> = GenericHash::<32, $ol>::hash(&msg, Some(&key)).expect("gh");
+                let b: [u8; $ol] = GenericHash::<32, $ol>::hash(msg.as_slice(), Some(&StackByteArray::<32>::from(key))).expect("gh");
+                let c: Vec<u8> = GenericHash::<32, $ol>::hash(&msg, Some(&key.to_vec())).expect("gh");
+                let d: Vec<u8> = GenericHash::<32, $ol>::hash_to_vec(&msg, Some(&key)).expect("gh");
+                let mut h = GenericHash::<32, $ol>::new(Some(&key)).expect("gh");
+                h.update(&msg);
+                let e: Vec<u8> = h.finalize_to_vec().expect("gh");
+                let ok = a.as_slice() == &b[..] && c == b.to_vec() && d == c && e == c;
+                v.push(Line { id: format!("container/generichash-wrappers/{}/{i}", $ol), out: if ok { c } else { b"CONTAINER-MISMATCH".to_vec() }, reference: sodium::generichash($ol, &msg, Some(&key)), nontrivial: true });
+            }};
+        }
+        match i % 4 {
+            0 => gh!(16),
+            1 => gh!(32),
+            2 => gh!(64),
+            _ => gh!(33),
+        }
+        let m1: Vec<u8> = dryoc::auth::Auth::compute_to_vec(key, &msg);
+        let m2: StackByteArray<32> = dryoc::auth::Auth::compute(key.to_vec(), &msg);
+        let m3: [u8; 32] = dryoc::auth::Auth::compute(StackByteArray::<32>::from(key), &msg);
+        let o1: Vec<u8> = dryoc::onetimeauth::OnetimeAuth::compute_to_vec(key, &msg);
+        let o2: StackByteArray<16> = dryoc::onetimeauth::OnetimeAuth::compute(key.to_vec(), &msg);
+        let s1: Vec<u8> = dryoc::sha512::Sha512::compute_to_vec(&msg);
+        let s2: StackByteArray<64> = dryoc::sha512::Sha512::compute(&msg);
+        let ok = m2.as_slice() == m1 && m3[..] == m1[..] && o2.as_slice() == o1 && s2.as_slice() == s1;
+        v.push(Line { id: format!("container/auth+onetimeauth+sha512-wrappers/{i}"), out: if ok { [m1, o1, s1].concat() } else { b"CONTAINER-MISMATCH".to_vec() }, reference: None, nontrivial: true });
+        // resizing with a non-zero fill value must give the same bytes in every resizable container
+        let (n0, n1, fillv) = (i % 50, 60 + i % 9000, 1 + (i % 255) as u8);
+        let mut rv: Vec<u8> = msg[..n0.min(msg.len())].to_vec();
+        let base0 = rv.clone();
+        ResizableBytes::resize(&mut rv, n1, fillv);
+        let mut out = rv.clone();
+        #[cfg(feature = "nightly")]
+        {
+            use dryoc::protected::*;
+            let mut hb = HeapBytes::default();
+            hb.resize(base0.len(), 0);
+            hb.as_mut_slice().copy_from_slice(&base0);
+            let mut lk = HeapBytes::from_slice_into_locked(&base0).expect("lock");
+            let mut ul = HeapBytes::from_slice_into_locked(&base0).expect("lock").munlock().expect("unlock");
+            hb.resize(n1, fillv);
+            lk.resize(n1, fillv);
+            ul.resize(n1, fillv);
+            if hb.as_slice() != rv || lk.as_slice() != rv || ul.as_slice() != rv {
+                out = b"CONTAINER-MISMATCH".to_vec();
+            }
+        }
+        let _ = base0;
+        v.push(Line { id: format!("container/resize-with-fill/{i}"), out: crate::models::sha512(&out).to_vec(), reference: None, nontrivial: true });
+        if out == b"CONTAINER-MISMATCH" {
+            v.last_mut().unwrap().out = out;
+        }
+    }
 }
 
 /// container axis (nightly builds): the same operation through heap / locked containers must give
@@ -236,11 +303,11 @@ pub fn run(ctx: &mut Ctx) -> Result<(), Violation> {
         let first = present[0].1.unwrap();
         for (b, v) in &present {
             let v = v.unwrap();
-            if v.1 != "ok" && result.is_ok() {
-                result = Err(Violation::new("C18", "transcript", format!("build {b}: case {id} differs from libsodium's output (output prefix {})", v.3), json!({"case_id": id, "build": b, "seed": ctx.seed, "tier": ctx.tier.name()})));
-            }
             if v.3.starts_with(&hx(b"CONTAINER-MISMATCH")[..20]) && result.is_ok() {
                 result = Err(Violation::new("C18", "transcript", format!("build {b}: case {id}: container variants produce different bytes"), json!({"case_id": id, "build": b, "seed": ctx.seed, "tier": ctx.tier.name()})));
+            }
+            if v.1 != "ok" && result.is_ok() {
+                result = Err(Violation::new("C18", "transcript", format!("build {b}: case {id} differs from libsodium's output (output prefix {})", v.3), json!({"case_id": id, "build": b, "seed": ctx.seed, "tier": ctx.tier.name()})));
             }
             if v.0 != first.0 && result.is_ok() {
                 result = Err(Violation::new(
